@@ -221,7 +221,7 @@ def oracle_eval(node, env):
         return f64(not eqn(a, b))
     if n in ("min", "max"):
         if a != a or b != b:
-            raise Unspecified()       # the documentation does not say what min/max do with NaN
+            raise Unspecified()       # "Minimum"/"Maximum": the documentation does not say what they do with NaN
         return min(a, b) if n == "min" else max(a, b)
     if n == "pow":
         return np.float64(a) ** np.float64(b)
@@ -405,20 +405,18 @@ Definition res_eqb {A} (eq : A -> A -> bool) (a b : result A) : bool :=
 Fixpoint list_eqb {A} (eq : A -> A -> bool) (a b : list A) : bool :=
   match a, b with [], [] => true | x :: a', y :: b' => eq x y && list_eqb eq a' b' | _, _ => false end.
 (* model value (got) vs implementation value (exp; the harness encodes float64 as VF, bool as VB, any narrower dtype as VN):
-   VN = a non-boolean number the model does not determine, VBu = a boolean it does not determine, VAny = anything *)
+   VN = a non-boolean number the model does not determine, VBu = a boolean it does not determine *)
 Definition val_ok (got exp : value float) : bool :=
   match got, exp with
-  | VAny, _ => true
   | VN, VF _ | VN, VN => true
   | VBu, VB _ => true
   | VF a, VF b => fsame a b
   | VB a, VB b => Bool.eqb a b
   | _, _ => false
   end.
-Definition is_anyv (v : value float) : bool := match v with VAny => true | _ => false end.
 Definition res_ok (got exp : result (list (value float))) : bool :=
   match got with
-  | Ok l => existsb is_anyv l || match exp with Ok l' => list_eqb val_ok l l' | Err _ => false end
+  | Ok l => match exp with Ok l' => list_eqb val_ok l l' | Err _ => false end
   | Err e => match exp with Err f => err_eqb e f | Ok _ => false end
   end.
 Definition mk_engine (ins outs : list (string * float)) : engine float :=
@@ -431,16 +429,16 @@ Definition mk_engine (ins outs : list (string * float)) : engine float :=
                                    ov_previous := PrimFloat.nan; ov_fuzzy := [] |}) outs;
      e_blocks := [] |}.
 Fixpoint mem_rows (orc : string -> float -> float -> option float) (root : option (fnode float)) (tv : list (string * float))
-         (eng : option (engine float)) (bigs : list string) (xs : list float) : result (list (value float)) :=
+         (eng : option (engine float)) (xs : list float) : result (list (value float)) :=
   match xs with
   | [] => Ok []
-  | x :: tl => match membership (NT:=NF) op_table orc root tv eng bigs x with
-               | Ok v => match mem_rows orc root tv eng bigs tl with Ok vs => Ok (v :: vs) | Err e => Err e end
+  | x :: tl => match membership (NT:=NF) op_table orc root tv eng x with
+               | Ok v => match mem_rows orc root tv eng tl with Ok vs => Ok (v :: vs) | Err e => Err e end
                | Err e => Err e
                end
   end.
-Definition evalcase : Type := otab * list string * list (list (string * float)) * result (list (value float)).
-Definition memcase : Type := otab * list (string * float) * bool * list (string * float) * list (string * float) * list string * list float * result (list (value float)).
+Definition evalcase : Type := otab * list (list (string * float)) * result (list (value float)).
+Definition memcase : Type := otab * list (string * float) * bool * list (string * float) * list (string * float) * list float * result (list (value float)).
 Definition case : Type := string * list (string * float) * result (list string) * result (fnode float) * list evalcase * list memcase.
 Definition check (c : case) : bool :=
   let '(text, extra, exp_postfix, exp_tree, evals, mems) := c in
@@ -450,10 +448,10 @@ Definition check (c : case) : bool :=
   res_eqb tree_eqb got exp_tree &&
   match got with
   | Ok t =>
-      forallb (fun ec : evalcase => let '(tab, bigs, rows, expected) := ec in
-                 res_ok (evaluate_rows (NT:=NF) op_table (olookup fsame tab) bigs rows t) expected) evals &&
-      forallb (fun mc : memcase => let '(tab, tv, has_eng, ins, outs, bigs, xs, expected) := mc in
-                 res_ok (mem_rows (olookup fsame tab) (Some t) tv (if has_eng then Some (mk_engine ins outs) else None) bigs xs) expected) mems
+      forallb (fun ec : evalcase => let '(tab, rows, expected) := ec in
+                 res_ok (evaluate_rows (NT:=NF) op_table (olookup fsame tab) rows t) expected) evals &&
+      forallb (fun mc : memcase => let '(tab, tv, has_eng, ins, outs, xs, expected) := mc in
+                 res_ok (mem_rows (olookup fsame tab) (Some t) tv (if has_eng then Some (mk_engine ins outs) else None) xs) expected) mems
   | Err _ => true
   end.
 """
@@ -499,7 +497,7 @@ def run_eval(fl, item, keys, env_rows, bigs, variables, verdict, stats):
     stats["oracle_entries"] += len(table)
     exp = f"Ok {values_lit(outcome[1], outcome[2])}" if outcome[0] == "ok" else f"Err {outcome[1]}"
     rows = vlib.coq_list(env_lit(row) for row in env_rows)
-    lit = f"({otab_lit(table)}, {strs_lit(bigs)}, {rows}, {exp})"
+    lit = f"({otab_lit(table)}, {rows}, {exp})"
     return lit, outcome
 
 
@@ -781,7 +779,7 @@ def run(ctx, build, verdict, ev):
     ev["assumptions"] += [
         "libm/rounding results (exp log sin ... float_power remainder fmod arctan2 floor ceil round) are recorded from the implementation's own element methods on an instrumented twin of each formula; + - * / sqrt fabs negative comparisons are IEEE-exact in Coq's PrimFloat",
         "number literals outside digits[.digits] with <= 15 digits (exponents, inf, nan, underscores, long literals) are passed to the model as a table recorded from to_float; the decimal class is decided by the model itself",
-        "values of NumPy types narrower than float64 (int8 from remainder/fmod of two booleans, float16 from float ufuncs on booleans) are not modelled numerically (model value VN: predicted to occur, number not compared)",
+        "values computed from a boolean (a result of and/or/!) used as a number — int8 from remainder/fmod of two booleans, float16 from float ufuncs on booleans; outside the property's typing, reachable only in token soups — are not modelled numerically (model value VN: predicted to occur, number not compared)",
         "ASCII formulas only (Python's \\s also matches non-ASCII blanks)",
     ]
 
@@ -838,7 +836,7 @@ def membership_case(fl, rng, item, names, keys, stats, viol, count):
         pass
     table = dedupe(table)
     exp = f"Ok {values_lit(outcome[1], outcome[2])}" if outcome[0] == "ok" else f"Err {outcome[1]}"
-    item.mems.append(f"({otab_lit(table)}, {env_lit(tv)}, {'true' if has_engine else 'false'}, {env_lit(ins)}, {env_lit(outs)}, {strs_lit(bigs)}, "
+    item.mems.append(f"({otab_lit(table)}, {env_lit(tv)}, {'true' if has_engine else 'false'}, {env_lit(ins)}, {env_lit(outs)}, "
                      f"{vlib.coq_list(vlib.fhex(x) for x in xs)}, {exp})")
     stats["membership_cases"] += 1
     count("membership:" + kind)
